@@ -16,33 +16,10 @@ Theorems (all unconditional in the batch contents, the history and the oracle va
 Only property theorems and their non-vacuity examples live in this file.
 -/
 import SemaModel.C01.Lemmas
-import SemaModel.Generated.FactsC01
 set_option linter.unusedSimpArgs false
 namespace Sema.C01
 
-/-! ### facts of the source the model relies on (regenerated by tools/facts_c01 on every run) -/
-
-/-- the model's "_delete" token is shard.DELETEVALUE as the harness prints a string value -/
-example : deleteValue = "\"" ++ Gen.FactsC01.deleteValue ++ "\"" := by rfl
-/-- node ids start at 2 -/
-example : Shard.empty.nextV = Gen.FactsC01.startId := by rfl
-/-- `Ctr.nextId` / `Ctr.freeId` transcribe these bodies -/
-example : Gen.FactsC01.nextIdBody =
-    "if len(v1.freeIds) == 0 { v1.nextFreeId += 1 return v1.nextFreeId - 1 } ; v2 := v1.freeIds[0] ; v1.freeIds = v1.freeIds[1:] ; return v2" := by rfl
-example : Gen.FactsC01.freeIdBody = "v1.freeIds = append(v1.freeIds, v2)" := by rfl
-/-- count and counter are written only after the pipeline's error check (`insertPoints` /
-`deletePoints` write them in the success branch only); UpdatePoints touches neither -/
-example : Gen.FactsC01.insertPhases = ["newcounter", "errcheck", "count", "flush"] := by rfl
-example : Gen.FactsC01.deletePhases = ["newcounter", "errcheck", "count", "flush"] := by rfl
-example : Gen.FactsC01.updatePhases = ["errcheck"] := by rfl
-/-- `+len(points)` for an insert, `-len(deletedIds)` (not the size of the request) for a delete -/
-/- one write transaction per batch and every point-store / counter access inside it: the model's
-`step` is one atomic `Disk.write`; a check moved into an earlier read transaction, or a batch split
-over several write transactions, would make "rejected as a whole" depend on interleavings -/
-example : Gen.FactsC01.txShapeInsertPoints = (1, 0, false, []) ∧ Gen.FactsC01.txShapeUpdatePoints = (1, 0, false, []) ∧
-    Gen.FactsC01.txShapeDeletePoints = (1, 0, false, []) := by decide
-
-example : Gen.FactsC01.insertCountChange = "len(v2)" ∧ Gen.FactsC01.deleteCountChange = "-len(v3)" := ⟨rfl, rfl⟩
+/-! ### facts of the source the model relies on (tools/facts_c01): see `Pins.lean` (a module of its own, built by C01's check only) -/
 
 /-! ### the spec says what the property says -/
 
